@@ -21,7 +21,7 @@
 From Coq Require Import List NArith ZArith Lia Bool.
 From Verif Require Import Base.Outcome Wire.Item Gen.Consts.
 From Verif Require Wire.Cbor Wire.Msgpack Wire.Simple Wire.Binc Wire.SimpleProofs Wire.SimpleDepth Wire.BincProofs.
-From Verif Require Wire.CborDepthFull Wire.SimpleDepthFull Wire.Json Wire.JsonDepth C14.JsonFull.
+From Verif Require Wire.CborDepthFull Wire.SimpleDepthFull Wire.Json Wire.JsonDepth C14.JsonFull C14.IllFormed.
 From Verif Require Import C14.Bridge C14.Typed C14.TypedProofs C14.TypedFull.
 Import ListNotations.
 
@@ -67,6 +67,28 @@ Theorem C14_cbor_error_partial : forall (D : Cbor.dopts) (l : list nk) (core : l
   Cbor.dec_naked D f (nest l core) = Err EDepth.
 Proof. exact cbor_error. Qed.
 Print Assumptions C14_cbor_error_partial.
+
+(* ill-formed nesting that is NOT a container (C14/IllFormed.v; harness stream "ill"): two or more
+   indefinite-length string heads (0x5f / 0x7f, any mixture) in a row, whatever follows, are
+   "invalid descriptor" in BOTH cbor parsers, at every entry depth and with every fuel >= 2, and the
+   walker takes no recursion frame for them: a chunk position never nests *)
+Theorem C14_cbor_chunk_heads_error : forall (D : Cbor.dopts) (f : nat) (d : Z) (h1 h2 : N) (hs rest : list N),
+  IllFormed.str_heads (h1 :: h2 :: hs) ->
+  Cbor.skip D (S (S f)) d ((h1 :: h2 :: hs) ++ rest) = Err EBadDesc /\
+  Cbor.skip_maxrec D (S (S f)) d ((h1 :: h2 :: hs) ++ rest) = O /\
+  Cbor.dec_naked D (S (S f)) ((h1 :: h2 :: hs) ++ rest) = Err EBadDesc.
+Proof. exact IllFormed.cbor_nested_chunk_heads_error. Qed.
+Print Assumptions C14_cbor_chunk_heads_error.
+
+Example C14_cbor_chunk_heads_nonvacuous :
+  IllFormed.str_heads [95; 127; 95]%N /\
+  Cbor.skip (Cbor.mkdo false false false 0) 5 0 ([95; 127; 95] ++ [65; 1; 255])%N = Err EBadDesc /\
+  (* one head followed by a well-formed chunk and a break is a string, and is skipped *)
+  Cbor.skip (Cbor.mkdo false false false 0) 5 0 [95; 65; 1; 255; 7]%N = Ok [7%N].
+Proof.
+  split; [repeat constructor; (left; reflexivity) || (right; reflexivity) |].
+  vm_compute. split; reflexivity.
+Qed.
 
 (* ------------------------------ msgpack ------------------------------ *)
 (* from Wmsgpack_dec_depth_rec / Wmsgpack_skip_depth_rec *)
